@@ -1475,8 +1475,11 @@ class SetItems(StackSliceOpcode):
             update_dict_keys.append(key)
             update_dict_values.append(value)
         if isinstance(pydict, ast.Dict) and not pydict.keys:
-            # the dict is empty, so add a new one
-            interpreter.stack.append(ast.Dict(keys=update_dict_keys, values=update_dict_values))
+            # the dict is empty, so fill it in place (like APPEND does for lists): the memo may
+            # already alias this node, and a later GET must see the same contents
+            pydict.keys.extend(update_dict_keys)
+            pydict.values.extend(update_dict_values)
+            interpreter.stack.append(pydict)
         else:
             dict_name = interpreter.new_variable(pydict)
             update_dict = ast.Dict(keys=update_dict_keys, values=update_dict_values)
@@ -1500,8 +1503,11 @@ class SetItem(Opcode):
         key = interpreter.stack.pop()
         pydict = interpreter.stack.pop()
         if isinstance(pydict, ast.Dict) and not pydict.keys:
-            # the dict is empty, so add a new one
-            interpreter.stack.append(ast.Dict(keys=[key], values=[value]))
+            # the dict is empty, so fill it in place (like APPEND does for lists): the memo may
+            # already alias this node, and a later GET must see the same contents
+            pydict.keys.append(key)
+            pydict.values.append(value)
+            interpreter.stack.append(pydict)
         else:
             dict_name = interpreter.new_variable(pydict)
             assignment = ast.Assign(
